@@ -54,6 +54,27 @@ func (c *ctx) ref() {
 	c.oneReplyPerRequest()
 	c.secretsInLogs(d)
 	c.sinkLedger()
+	c.everyLoadTakesEffect()
+}
+
+// everyLoadTakesEffect: a document the loader front end accepted (Unmarshal returned
+// nil) must be applied by the server; at the end of the run, with nothing parked, as
+// many configurations have been applied as were accepted (C16: a reload is as good as a
+// start with that file).
+func (c *ctx) everyLoadTakesEffect() {
+	accepted, applied := 0, 0
+	for _, e := range c.r.Events {
+		switch {
+		case e.Kind == "publish-done" && e.S == "":
+			accepted++
+		case e.Kind == "log" && strings.Contains(e.S, "updated all prefix filters"):
+			applied++
+		}
+	}
+	applied-- // the initial document
+	if accepted > applied && c.r.Completed {
+		c.v("C16/accepted-load-never-applied", "%d reloads were accepted by the loader front end without error but only %d took effect by the end of the run (nothing was parked any more)", accepted, applied)
+	}
 }
 
 // sinkLedger is the content-based half of C12, independent of which connection's window
@@ -566,7 +587,9 @@ func (c *ctx) oneReplyPerRequest() {
 		case "invoke":
 			cur[e.Conn] = &open{inv: parseInvoke(e)}
 		case "write":
-			if o := cur[e.Conn]; o != nil {
+			// a write that failed on a deadline the server armed itself delivered nothing;
+			// injected transport faults (error, short, reset) count as the attempt they were
+			if o := cur[e.Conn]; o != nil && e.S != "write-deadline" {
 				o.writes++
 			}
 		case "invoke-end":
